@@ -20,4 +20,9 @@ HARNESSES.append(
                                 "parseGeneralNames:/for \\(c = p; c < save/": n + 1,
                                 "strncpy.0": 20, "vf_harness:/for \\(/": n + 2})
                 for n in (6, 7, 8, 9, 10, 12)]))
-PROPERTY = dict(level="model_checking", explanation="", bounds="", outside="", assumptions=[])
+PROPERTY = dict(level='model_checking',
+    claim='All DER primitives of asn1.c and parseGeneralNames are memory-safe on every buffer of every size up to the bound and leave cursor/lengths inside the buffer; stored GeneralNames are NUL-terminated, text entries printable.',
+    bounds='asn1 primitives: every buffer size 0..10 (thorough 24); GeneralNames: 6- and 9-byte DER (thorough up to 12)',
+    outside='the other X.509/CRL/OCSP/PKCS#8/PKCS#12/PEM/key parsers are not yet encoded',
+    explanation='All DER primitives of asn1.c and parseGeneralNames are memory-safe on every buffer of every size up to the bound and leave cursor/lengths inside the buffer; stored GeneralNames are NUL-terminated, text entries printable.',
+    assumptions=[])
